@@ -17,8 +17,12 @@ class ToGFA1:
     a.append(",".join(segment_names))
     overlaps = []
     for oline in self.captured_edges:
-      gfapy.Field._validate_gfa_field(oline.line.overlap, "alignment_gfa1")
-      overlaps.append(str(oline.line.overlap))
+      overlap = oline.line.overlap
+      if oline.orient == "-":
+        # the edge is traversed in the reverse direction
+        overlap = overlap.complement()
+      gfapy.Field._validate_gfa_field(overlap, "alignment_gfa1")
+      overlaps.append(str(overlap))
     a.append(",".join(overlaps) if overlaps else "*")
     for tn in self.tagnames:
       a.append(self.field_to_s(tn, tag=True))
